@@ -77,12 +77,33 @@ pub fn cursor(x: &Sx) -> Cursor {
     }
 }
 
+/// C10 only (set by its Ctx::new): the float codes 999 and -999 stand for the doubles directly
+/// below 1.0 and above -1.0 (1.1e-16 away: distinct floats that an epsilon comparison would take
+/// for 1.0 / -1.0; the model orders them between 0.5 and 1.0 like 0.999)
+pub static NEAR_ONE: std::sync::atomic::AtomicBool = std::sync::atomic::AtomicBool::new(false);
+pub fn fix_to_f64(z: i64) -> f64 {
+    if NEAR_ONE.load(std::sync::atomic::Ordering::Relaxed) && (z == 999 || z == -999) {
+        let below_one = f64::from_bits(1.0f64.to_bits() - 1);
+        if z > 0 { below_one } else { -below_one }
+    } else {
+        z as f64 / 1000.0
+    }
+}
+fn f64_to_fix(f: f64) -> i64 {
+    let below_one = f64::from_bits(1.0f64.to_bits() - 1);
+    if NEAR_ONE.load(std::sync::atomic::Ordering::Relaxed) && f.abs() == below_one {
+        if f > 0.0 { 999 } else { -999 }
+    } else {
+        (f * 1000.0).round() as i64
+    }
+}
+
 pub fn value(x: &Sx) -> DataValue {
     match x.nth(0).int() {
         0 => DataValue::Null,
         1 => DataValue::Bool(x.nth(1).int() != 0),
         2 => DataValue::Int(x.nth(1).int() as isize),
-        3 => DataValue::Float(x.nth(1).int() as f64 / 1000.0),
+        3 => DataValue::Float(fix_to_f64(x.nth(1).int())),
         4 => DataValue::String(x.list()[1..].iter().filter_map(|c| char::from_u32(c.int() as u32)).collect()),
         _ => DataValue::List(x.list()[1..].iter().map(value).collect()),
     }
@@ -92,7 +113,7 @@ pub fn value_sx(v: &DataValue) -> Sx {
         DataValue::Null => l(vec![a(0)]),
         DataValue::Bool(b) => l(vec![a(1), a(*b as i64)]),
         DataValue::Int(i) => l(vec![a(2), a(*i as i64)]),
-        DataValue::Float(f) => l(vec![a(3), a((f * 1000.0).round() as i64)]),
+        DataValue::Float(f) => l(vec![a(3), a(f64_to_fix(*f))]),
         DataValue::String(s) => {
             let mut v = vec![a(4)];
             v.extend(s.chars().map(|c| a(c as u32 as i64)));
@@ -626,7 +647,13 @@ pub fn gen_value(rng: &mut Rng, typed: bool, depth: usize) -> Sx {
         0 => l(vec![a(0)]),
         1 => l(vec![a(1), a(rng.below(2) as i64)]),
         2 => l(vec![a(2), a(rng.range(-3, 3))]),
-        3 => l(vec![a(3), a(rng.range(-3, 3) * 500)]),
+        3 => {
+            if NEAR_ONE.load(std::sync::atomic::Ordering::Relaxed) && rng.chance(1, 4) {
+                l(vec![a(3), a(if rng.chance(1, 2) { 999 } else { -999 })])
+            } else {
+                l(vec![a(3), a(rng.range(-3, 3) * 500)])
+            }
+        }
         4 => {
             let pool: [&[i64]; 5] = [&[], &[97], &[98], &[49], &[233, 128512]];
             let mut v = vec![a(4)];
